@@ -1,7 +1,16 @@
 (* C01 - a host expression targets exactly its mathematical expansion.
    Statements only; proofs live in Hostlist/*Facts.v. *)
-From PV Require Import Base.DecimalFacts Hostlist.HLDefs Hostlist.HLSpec Hostlist.HLFacts.
+From PV Require Import Base.DecimalFacts Hostlist.HLDefs Hostlist.HLSpec Hostlist.HLFacts Hostlist.HLParseFacts.
 Local Open Scope N_scope.
+
+(* THE property: for every well-formed expression (any number of words, any separators,
+   zero to two bracket pairs per word, any ranges within the documented limit, any typed
+   widths, numbers below 10^15, names within the code's fixed buffers - see expr_wf), the
+   model of create + opt.c's re-expansion + iteration yields exactly the mathematical
+   expansion: order as written, repeats kept, lower bound's typed width. *)
+Theorem C01_expansion : forall e : expr, expr_wf e -> targets (render e) = Ok (denote e).
+Proof. exact HLParseFacts.C01_expansion. Qed.
+Print Assumptions C01_expansion.
 
 (* tail coalescing and the in-place width adjustment never change the names *)
 Theorem C01_coalesce_invisible : forall l r,
